@@ -746,6 +746,31 @@ func (uconn *UConn) SetTLSVers(minTLSVers, maxTLSVers uint16, specExtensions []T
 		return fmt.Errorf("uTLS does not support 0x%X as max version", maxTLSVers)
 	}
 
+	// Never accept a version the ClientHello does not advertise: if the spec carries a
+	// supported_versions extension, clamp the range to the versions listed there.
+	for _, e := range specExtensions {
+		if ext, ok := e.(*SupportedVersionsExtension); ok {
+			var lo, hi uint16
+			for _, vers := range ext.Versions {
+				if isGREASEUint16(vers) {
+					continue
+				}
+				if lo == 0 || vers < lo {
+					lo = vers
+				}
+				if vers > hi {
+					hi = vers
+				}
+			}
+			if lo != 0 && minTLSVers < lo {
+				minTLSVers = lo
+			}
+			if hi != 0 && maxTLSVers > hi {
+				maxTLSVers = hi
+			}
+		}
+	}
+
 	uconn.HandshakeState.Hello.SupportedVersions = makeSupportedVersions(minTLSVers, maxTLSVers)
 	if uconn.config.EncryptedClientHelloConfigList == nil {
 		uconn.config.MinVersion = minTLSVers
